@@ -79,6 +79,7 @@ type pathState struct {
 	outputs     []string
 	outTexts    []string
 	overridesOn bool
+	forcedPerm  int
 	sample      *PathSample
 	exitCode    int
 	exited      bool
